@@ -29,6 +29,8 @@ func init() {
 	verifKinds["c14.reader"] = verifC14Reader
 	verifKinds["c14.writer"] = verifC14Writer
 	verifKinds["c14.props"] = verifC14Props
+	verifKinds["c14.rt"] = verifC14RoundTrip
+	verifKinds["c14.handler"] = verifC14Handler
 }
 
 var errVerifC14 = errors.New("verif: scripted error of the inner reader/writer")
@@ -435,4 +437,148 @@ func TestVerifC14Fixtures(t *testing.T) {
 	if err := os.WriteFile(out, []byte(sb.String()), 0o600); err != nil {
 		t.Fatal(err)
 	}
+}
+
+// ---- the same scripts through the net/http middleware (TracingRoundTripper / TracingHandler) ----
+
+type verifC14Transport struct{ resp *http.Response }
+
+func (t *verifC14Transport) RoundTrip(*http.Request) (*http.Response, error) { return t.resp, nil }
+
+func verifC14SameHeader(a, b http.Header) bool {
+	if len(a) != len(b) {
+		return false
+	}
+	for k, v := range a {
+		w, ok := b[k]
+		if !ok || len(v) != len(w) {
+			return false
+		}
+		for i := range v {
+			if v[i] != w[i] {
+				return false
+			}
+		}
+	}
+	return true
+}
+
+// (0 headers table ops) -> as c14.reader, the response body being read through the *http.Response
+// that TracingRoundTripper hands back; the script must end the body (EOF, error or Close).
+func verifC14RoundTrip(args []vsx) vsx {
+	if verifC14Tripped {
+		return vErr(verifC14AllocErr)
+	}
+	if args[0].boolean() {
+		return vL(vS("bad-case"))
+	}
+	var meter verifC14Meter
+	coll := &verifC14Collector{}
+	inner := &verifC14Inner{}
+	hdr := verifC14Headers(args[1])
+	hdr.Set("X-Verif", "h")
+	hdr.Add("X-Verif", "h2")
+	trailer := http.Header{"X-Verif-Trailer": {"t1", "t2"}}
+	resp := &http.Response{
+		Status: "200 OK", StatusCode: http.StatusOK, Proto: "HTTP/1.1", ProtoMajor: 1, ProtoMinor: 1,
+		Header: hdr, Trailer: trailer, Body: inner, ContentLength: -1,
+	}
+	hdrCopy, trailerCopy := hdr.Clone(), trailer.Clone()
+	got, err := TracingRoundTripper(&verifC14Transport{resp: resp}, coll).RoundTrip(verifC14Request())
+	if err != nil || got != resp {
+		return vErr("response-not-passed-through")
+	}
+	rd := got.Body
+	var results []vsx
+	for _, op := range args[3].l {
+		if op.l[0].i == 0 {
+			inner.data = op.l[1].b
+			switch op.l[2].i {
+			case 0:
+				inner.err = nil
+			case 1:
+				inner.err = io.EOF
+			default:
+				inner.err = errVerifC14
+			}
+			buf := make([]byte, len(inner.data)+int(op.l[3].i))
+			before := inner.reads
+			var n int
+			var err error
+			meter.around(len(inner.data), func() { n, err = rd.Read(buf) })
+			if inner.reads != before+1 || inner.gotLen != len(buf) || n < 0 || n > len(buf) {
+				return vErr("inner-read-not-called-once-with-the-callers-buffer")
+			}
+			results = append(results, vL(vB(append([]byte(nil), buf[:n]...)), verifC14IOTag(err)))
+		} else {
+			inner.closeErr = nil
+			if op.l[1].boolean() {
+				inner.closeErr = errVerifC14
+			}
+			before := inner.closes
+			err := rd.Close()
+			if inner.closes != before+1 {
+				return vErr("inner-close-not-called-once")
+			}
+			results = append(results, vL(verifC14IOTag(err)))
+		}
+	}
+	if got.StatusCode != http.StatusOK || !verifC14SameHeader(got.Header, hdrCopy) || !verifC14SameHeader(got.Trailer, trailerCopy) {
+		return vErr("status-headers-or-trailers-altered")
+	}
+	if meter.exceeded() {
+		return vErr(verifC14AllocErr)
+	}
+	return vL(vL(results...), verifC14Events(coll))
+}
+
+// (headers table ops) -> as c14.writer, the handler writing through the ResponseWriter that
+// TracingHandler passes to it (headers set before the first Write, a trailer after the last).
+func verifC14Handler(args []vsx) vsx {
+	if verifC14Tripped {
+		return vErr(verifC14AllocErr)
+	}
+	var meter verifC14Meter
+	coll := &verifC14Collector{}
+	inner := &verifC14RespWriter{hdr: http.Header{}}
+	var results []vsx
+	failure := ""
+	handler := http.HandlerFunc(func(w http.ResponseWriter, _ *http.Request) {
+		for name, vals := range verifC14Headers(args[0]) {
+			w.Header()[name] = vals
+		}
+		w.Header().Set("Trailer", "X-Verif-Trailer")
+		for _, op := range args[2].l {
+			data := append([]byte(nil), op.l[0].b...)
+			inner.n = int(op.l[1].i)
+			inner.err = nil
+			if op.l[2].boolean() {
+				inner.err = errVerifC14
+			}
+			before := inner.writes
+			var n int
+			var err error
+			meter.around(len(data), func() { n, err = w.Write(data) })
+			if inner.writes != before+1 || !bytes.Equal(inner.got, op.l[0].b) || !bytes.Equal(data, op.l[0].b) {
+				failure = "inner-write-did-not-get-exactly-the-callers-bytes"
+				return
+			}
+			results = append(results, vL(vInt(n), verifC14IOTag(err)))
+		}
+		w.Header().Set("X-Verif-Trailer", "t")
+	})
+	TracingHandler(handler, coll).ServeHTTP(inner, verifC14Request())
+	if failure != "" {
+		return vErr(failure)
+	}
+	want := verifC14Headers(args[0])
+	want.Set("Trailer", "X-Verif-Trailer")
+	want.Set("X-Verif-Trailer", "t")
+	if len(inner.status) != 1 || inner.status[0] != http.StatusOK || !verifC14SameHeader(inner.hdr, want) {
+		return vErr("status-headers-or-trailers-altered")
+	}
+	if meter.exceeded() {
+		return vErr(verifC14AllocErr)
+	}
+	return vL(vL(results...), verifC14Events(coll))
 }
